@@ -468,7 +468,7 @@ func runC10(pl *plan.Plan, out *plan.Outcome) {
 		check("at quiescence", true)
 	})
 	if res := env.Run(); res != "done" && out.Trouble == "" {
-		out.Trouble = "run ended: " + res
+		env.runEnded(res, out)
 	}
 	out.Add("c10.expiries", int64(expiries))
 	out.Add("probe.callback_ran_after_template_was_touched", int64(racy))
